@@ -36,6 +36,10 @@ VARIANT_SYMBOLS = list("ϴ∇∂ϵϑϰϕϱϖ")
 DIGAMMA = list("Ϝϝ")
 OUTSIDE = list("=*+!?%#@") + ["é", "Ж", "あ", "𝐀", "𝟘", "ℂ", "ℏ", "∞", "€", "ı", "ȷ", "Å", "ß", "ϐ", "ϒ", "א", "ℵ", "¼", "٣", "Ａ", "ａ", "０",
                                 "́", "ﬁ", "Ω", "K", "𝛂", "😀", " x", "中"]
+# compatibility look-alikes of letters (written as escapes: an editor that NFC-normalises this file would silently turn them into the plain
+# letters): Unicode has no styled forms of them, so they stay unchanged, and they must not collide with the styled forms of the letters
+OUTSIDE += ["\u212a", "\u2126", "\u212b", "\u00b5", "\u00aa", "\u00ba", "\u1d2c", "\u1d43", "\u24b6", "\u2160", "\u217a", "\u0251", "\u0261", "\u03c2",
+            "\u1e9e", "\u0410", "\u0430", "\u0391\u0301", "k\u2126", "\u00b5m"]
 DOMAIN = LATIN + DIGITS + GREEK + VARIANT_SYMBOLS + DIGAMMA
 
 
